@@ -18,7 +18,7 @@ const char *MC_ASSUME[] = {"reference compaction in this file; cells built with 
 const char *MC_CTR_NAMES[] = {"sets", "cells_in_sets", "sets_with_compaction", "largest_set", NULL};
 const char *MC_MAX_NAMES[] = {"largest_set_cells", NULL};
 #define CANARY 0xC0FFEE0DDEADBEEFull
-enum { OP_SUB, OP_SUBS, OP_TWO, OP_THREE, OP_TREE, OP_DISK };
+enum { OP_SUB, OP_SUBS, OP_TWO, OP_THREE, OP_TREE, OP_DISK, OP_SIZE };
 
 static int nkids(uint64_t p) { return spec_is_pentagon(p) ? 6 : 7; }
 // reference compaction; out sorted; returns count
@@ -302,8 +302,41 @@ static void op_disk(const McArg *a) {
     }
     free(d);
 }
-const McOp MC_OPS[] = {{"sub", "hii", op_sub}, {"subs", "hi", op_subs}, {"two", "hii", op_two}, {"three", "hii", op_three}, {"tree", "hiii", op_tree}, {"disk", "hiii", op_disk}};
-const int MC_NOPS = 6;
+// size(a, b): the already compact set {a, b} (two cells of one resolution, neither an ancestor of the other) at every target resolution:
+// uncompactCellsSize must equal the number of descendants (closed form, 7^n / 1+5(7^n-1)/6) at EVERY depth 0..15-res, in both orders,
+// with and without a zero slot in between; where the set is small enough the cells themselves are compared too
+static void op_size(const McArg *a) {
+    uint64_t x = a[0].u, y = a[1].u;
+    int r = spec_res(x);
+    if (spec_res(y) != r || x == y) return;
+    if (spec_is_pentagon(x) != spec_is_pentagon(y)) mc_nontrivial();
+    for (int t = r; t <= 15; t++) {
+        int64_t want = spec_children_count(x, t - r) + spec_children_count(y, t - r);
+        uint64_t sets[3][3] = {{x, y, 0}, {y, x, 0}, {x, 0, y}};
+        int ns[3] = {2, 2, 3};
+        for (int v = 0; v < 3; v++) {
+            int64_t got = -7;
+            mc_trans(1);
+            H3Error e = uncompactCellsSize(sets[v], ns[v], t, &got);
+            MC_CHECK(e == 0 && got == want, "uncompactCellsSize({%" PRIx64 ",%" PRIx64 "} variant %d, res %d) = %d, %" PRId64 "; the set has %" PRId64 " descendants", sets[v][0], sets[v][1] ? sets[v][1] : sets[v][2], v, t, e, got, want);
+        }
+        if (want <= 40000) {
+            uint64_t *out = calloc(want + 1, 8);
+            out[want] = CANARY;
+            mc_trans(1);
+            H3Error e = uncompactCells(sets[0], 2, out, want, t);
+            int ok = e == 0 && out[want] == CANARY;
+            int64_t i = 0;
+            SpecChildIt it;
+            for (spec_child_first(&it, x, t); ok && !it.done; spec_child_next(&it), i++) ok = out[i] == it.h;
+            for (spec_child_first(&it, y, t); ok && !it.done; spec_child_next(&it), i++) ok = out[i] == it.h;
+            free(out);
+            MC_CHECK(ok, "uncompactCells({%" PRIx64 ",%" PRIx64 "}, res %d) returned %d or cells that are not the descendants in order", x, y, t, e);
+        }
+    }
+}
+const McOp MC_OPS[] = {{"sub", "hii", op_sub}, {"subs", "hi", op_subs}, {"two", "hii", op_two}, {"three", "hii", op_three}, {"tree", "hiii", op_tree}, {"disk", "hiii", op_disk}, {"size", "hh", op_size}};
+const int MC_NOPS = 7;
 
 static U64Vec g_par;
 static void ph_subs(void *u) {
@@ -344,6 +377,27 @@ static void ph_tree(void *u) {
                     if (mc_expired()) return;
                     MC_RUN(OP_TREE, H(g_par.v[i]), I(depth), I(miss), I(o));
                 }
+        }
+}
+static void ph_size(void *u) {
+    uint64_t idx = 0;
+    // resolution 0: every cell with its successor; finer: every pentagon and a hexagon of every base cell, each with a sibling
+    for (int bc = 0; bc < 122; bc++, idx++) {
+        int d[15] = {0};
+        if (mc_mine(idx)) MC_RUN(OP_SIZE, H(spec_mk(0, bc, d)), H(spec_mk(0, (bc + 1) % 122, d)));
+    }
+    for (int r = 1; r <= 15; r++)
+        for (int bc = 0; bc < 122; bc++, idx++) {
+            if (!mc_mine(idx)) continue;
+            if (mc_expired()) return;
+            int d[15] = {0}, e[15] = {0};
+            e[r - 1] = 2 + (bc + r) % 5;  // a sibling of the centre child
+            MC_RUN(OP_SIZE, H(spec_mk(r, bc, d)), H(spec_mk(r, bc, e)));
+            if (r >= 2) {
+                d[0] = 3, e[0] = 3;
+                e[r - 1] = 6;
+                MC_RUN(OP_SIZE, H(spec_mk(r, bc, d)), H(spec_mk(r, bc, e)));
+            }
         }
 }
 static int g_kmax, g_diskdepth;
@@ -412,5 +466,6 @@ int main(int argc, char **argv) {
     g_kmax = mc_thorough ? 10 : 6;
     g_diskdepth = mc_thorough ? 4 : 2;
     mc_phase("disks and their children", ph_disk, NULL);
+    mc_phase("uncompact sizes at every depth", ph_size, NULL);
     return mc_finish();
 }
